@@ -785,8 +785,9 @@ class Engine(object):
             return self.models["pow"](self, P, ctx, a, b)
         if isinstance(op, ast.BitAnd) and bothint:
             bv = z3.simplify(b.t)
-            if z3.is_int_value(bv) and bv.as_long() == 0xFFFFFFFF:
-                return [(P, Num(self.pymod(a.t, z3.IntVal(2 ** 32)), True))]
+            if z3.is_int_value(bv) and bv.as_long() >= 0 and (bv.as_long() + 1) & bv.as_long() == 0:
+                # x & (2**k - 1) == x mod 2**k  (Python ints: two's complement semantics, also for negative x)
+                return [(P, Num(self.pymod(a.t, z3.IntVal(bv.as_long() + 1)), True))]
         if isinstance(op, ast.RShift) and bothint:
             bv = z3.simplify(b.t)
             if z3.is_int_value(bv):
